@@ -46,7 +46,8 @@ def check(run: Run) -> None:
     run.rule("C20.R8", "check_ast gates the emitted lambda of every operator before construction (C13.R3 re-evaluated)")
     from ..report import run_stage
 
-    run_stage(run, "c13", only={"C13.R3"})
+    run.rule("C20.R9", "python values handed to the result terminals reach the AST with Python's own literal escaping (C13.R1 re-evaluated): two different strings must not become the same Constant")
+    run_stage(run, "c13", only={"C13.R3", "C13.R1"})
     check_snapshot(Relabel(run, "C20.R7"), TermCtx(m, max_depth=2, opaque={"as_literal", "_parse_source_for_lambda"}), m, m.find_class("_rewrite_captured_vars", in_module="func_adl.util_ast"))
 
 
